@@ -16,6 +16,8 @@ SEMANTIC = (
     'invariant not satisfied at end of loop body',
     'unreachable',
     'requires not satisfied',      # the `requires` of an `assert ... by(...) requires ...` proof step
+    'precondition not met',        # vstd's own preconditions, e.g. `index in bounds for this access` (the access would panic)
+    'unable to prove post-condition of closure',   # a closure body no longer meets the //@closure spec it is given
 )
 
 LABEL_RE = re.compile(r'//\s*\[([A-Z0-9 ,]+)\]')
